@@ -82,7 +82,9 @@ Ltac unf := unfold cancel, cancel_if, gone in *; unfold upd_li, upd_part in *;
   lown lkey lval ldur llive lph llast lcad pfin pmap papi] in *.
 
 (* ---- the run relation ---- *)
-Definition wf_action (a : action) : Prop := match a with AcqCall _ _ _ d => 1 <= d | _ => True end.
+(* durations of at least a second; storage calls take no time (urgency) *)
+Definition wf_action (a : action) : Prop :=
+  match a with AcqCall _ _ _ d => 1 <= d | AdvanceInCall _ => False | _ => True end.
 (* AcquireLeadership(p, k) is called only while p holds no leaderInfo, live or not, for k:
    a participant does not acquire a key it has already led (failed attempts may be repeated) *)
 Definition fresh_b (s : state) (a : action) : bool :=
@@ -394,7 +396,7 @@ Ltac brk_goal := repeat match goal with
 Lemma step_iT s a s' o : InvT s -> wf_action a -> step c s a = Some (s', o) ->
   forall i l, li_at s' i l -> llive l = true -> timing s' i l.
 Proof.
-  intros I W H. start I H a; andb_h; unfold pt_at, li_at in *; same_idx; quiet_h; rw_ph; scbn; andb_h; zb; destr; itvb; destr; try easy1;
+  intros I W H. start I H a; try (exfalso; exact W); andb_h; unfold pt_at, li_at in *; same_idx; quiet_h; rw_ph; scbn; andb_h; zb; destr; itvb; destr; try easy1;
     live_h; brk_goal; rw_ph; scbn; andb_h; zb; destr; try easy1; try (repeat split; first [lia | discriminate | intros; lia]).
   - match goal with H6 : MGone = MGone -> _ |- _ => destruct (H6 eq_refl H0) as (q & Hq & R) end.
     pose proof (idle_at _ _ _ H11 Hq) as E. rewrite E in R. contradiction.
